@@ -1056,6 +1056,25 @@ async fn fd_exhaustion_family(cli: &Cli, report: &mut Report, late: &LateLog) {
             probes.push((p, late.worst_between(t_a, Instant::now())));
             tokio::time::sleep(Duration::from_millis(400)).await;
         }
+        // a second, short episode: the descriptors are gone for a second and are back at once (the
+        // clients hang up themselves) - the service is back at once, too
+        if probes.iter().all(|(p, _)| p.served_within_bound()) {
+            let mut idle2 = vec![];
+            for _ in 0..400 {
+                if let Ok(Ok(s)) = tokio::time::timeout(Duration::from_millis(500), tokio::net::TcpStream::connect(addr)).await {
+                    idle2.push(s);
+                }
+            }
+            tokio::time::sleep(Duration::from_millis(1200)).await;
+            drop(idle2);
+            tokio::time::sleep(Duration::from_millis(400)).await;
+            for i in 0..2u64 {
+                let t_a = Instant::now();
+                let p = probe("after-second-episode", addr, false, 6_200 + round * 10 + i, BOUND).await;
+                probes.push((p, late.worst_between(t_a, Instant::now())));
+                tokio::time::sleep(Duration::from_millis(300)).await;
+            }
+        }
         let exited = child.try_wait().ok().flatten().map(|st| st.code());
         let _ = child.kill();
         let _ = child.wait();
